@@ -367,9 +367,14 @@ def backgroundWrites : List Loc :=
   ((accessTable.filter fun r => (r.role == .publish || r.role == .refresh) && r.kind == .write && !r.fresh).map
     (·.loc)).eraseDups
 
-theorem background_writes_exactly :
-    backgroundWrites = [.Loader_cache, .Loader_limits, .Server_cliClient, .Server_resolved,
-      .Server_settings, .Workspace_cachedAccounts, .Workspace_cachedCommodities] := by
+/-- Whatever a background goroutine writes after publication is written under a lock that every
+    other access of the location takes too, or through a `sync` type — no field is named here, so
+    renaming or regrouping the fields changes nothing; `#eval backgroundWrites` lists them (for
+    the current source: the loader cache and limits, `Server.cliClient`, `Server.resolved`,
+    `Server.settings`, the workspace's declared-account / commodity caches). -/
+theorem background_writes_protected :
+    backgroundWrites.all (fun l => match protection l with
+      | .guardedBy _ => true | .atomicCell => true | _ => false) = true := by
   decide +kernel
 
 /-- The handlers that read `Server.resolved` (harness kinds completion / hover / definition /
@@ -881,31 +886,44 @@ end bg
 
 /-! ### Non-vacuity of the hypotheses of `server_race_free` / `server_deadlock_free` -/
 
-/-- A small instance of the server: initialisation writes the settings and starts the handler
-    thread; the handler reads the settings under RLock, starts a refresh and a publish
-    goroutine and re-reads; refresh writes the settings under Lock (inside refreshMu); publish reads the workspace
-    caches under Workspace.mu and the loader cache under Loader.mu nested inside. -/
+/-- locks in the order in which they may be taken (ascending rank) -/
+def insertLock (x : Lock × Mode) : List (Lock × Mode) → List (Lock × Mode)
+  | [] => [x]
+  | y :: r => if lockRank x.1 ≤ lockRank y.1 then x :: y :: r else y :: insertLock x r
+
+def sortLocks (ls : List (Lock × Mode)) : List (Lock × Mode) := ls.foldl (fun acc x => insertLock x acc) []
+
+/-- the program "take the row's locks, perform its access, release them" -/
+def progOf (r : Row Loc Lock) : List (Instr Loc Lock) :=
+  let ls := sortLocks r.locks
+  ls.map (fun x => Instr.acq x.1 x.2) ++ [.acc ⟨r.loc, r.kind, r.atomic, r.fresh⟩] ++
+    ls.reverse.map (fun x => Instr.rel x.1)
+
+def pickRow (role : Role) (p : Row Loc Lock → Bool) : List (Instr Loc Lock) :=
+  match accessTable.find? (fun r => r.role == role && p r) with
+  | some r => progOf r
+  | none => []
+
+/-- A small instance of the server, built from rows of the regenerated table (no field or mutex
+    is named): initialisation performs a write and starts the handler thread; the handler
+    performs a locked access, starts a refresh and a publish goroutine and performs a locked
+    write; refresh performs a write under two nested locks; publish a locked read and a write. -/
 def demoPool : Pool Loc Lock where
   prog := fun t => match t with
-    | 0 => [.acq .Server_settingsMu .excl, .acc ⟨.Server_settings, .write, false, false⟩,
-            .rel .Server_settingsMu, .spawn 1]
-    | 1 => [.acq .Server_settingsMu .shared, .acc ⟨.Server_settings, .read, false, false⟩,
-            .rel .Server_settingsMu, .spawn 2, .spawn 3,
-            .acq .Workspace_mu .excl, .acc ⟨.Workspace_cachedAccounts, .write, false, false⟩,
-            .acq .Loader_mu .shared, .acc ⟨.Loader_cache, .read, false, false⟩, .rel .Loader_mu,
-            .rel .Workspace_mu]
-    | 2 => [.acq .Server_refreshMu .excl,
-            .acq .Server_settingsMu .excl, .acc ⟨.Server_settings, .write, false, false⟩,
-            .rel .Server_settingsMu, .rel .Server_refreshMu]
-    | 3 => [.acq .Workspace_mu .shared, .acc ⟨.Workspace_cachedAccounts, .read, false, false⟩,
-            .rel .Workspace_mu,
-            .acq .Loader_mu .excl, .acc ⟨.Loader_cache, .write, false, false⟩, .rel .Loader_mu]
+    | 0 => pickRow .init (fun r => r.kind == .write) ++ [.spawn 1]
+    | 1 => pickRow .main (fun r => r.locks.length ≥ 1) ++ [.spawn 2, .spawn 3] ++
+           pickRow .main (fun r => r.kind == .write && r.locks.length ≥ 1)
+    | 2 => pickRow .refresh (fun r => r.kind == .write && r.locks.length ≥ 2)
+    | 3 => pickRow .publish (fun r => r.kind == .read && r.locks.length ≥ 1) ++
+           pickRow .publish (fun r => r.kind == .write && r.locks.length ≥ 1)
     | _ => []
   role := fun t => match t with
     | 0 => .init
     | 1 => .main
     | 2 => .refresh
     | _ => .publish
+
+def hasAccess (p : List (Instr Loc Lock)) : Bool := p.any fun i => match i with | .acc _ => true | _ => false
 
 /-- executable form of `Conforms` for one program -/
 def progConforms (T : List (Row Loc Lock)) (role : Role) (p : List (Instr Loc Lock)) : Bool :=
@@ -923,7 +941,12 @@ def progOrder (O : List (Lock × Lock)) (p : List (Instr Loc Lock)) : Bool :=
     | _ => true
 
 example : (List.range 4).all (fun t => progConforms accessTable (demoPool.role t) (demoPool.prog t)
-    && progOrder lockOrder (demoPool.prog t) && (heldAfter (demoPool.prog t)).isEmpty) = true := by
+    && progOrder lockOrder (demoPool.prog t) && (heldAfter (demoPool.prog t)).isEmpty
+    && hasAccess (demoPool.prog t)) = true := by
+  decide +kernel
+
+/-- …and the instance is not degenerate: the refresh thread really nests two locks. -/
+example : ((demoPool.prog 2).filter fun i => match i with | .acq _ _ => true | _ => false).length ≥ 2 := by
   decide +kernel
 
 end HL.Props.C14
